@@ -191,7 +191,7 @@ def _crash_result(job, how, stderr_tail):
                          "the library crashed / aborted / hung (%s) while encoding or decoding: plan=%r input=%r\n%s" % (
                              how, job["plan"], job["inp"], stderr_tail[-2500:]))])
 
-def run_all(jobs, procs=4, job_timeout=300, workdir="/var/tmp"):
+def run_all(jobs, procs=4, job_timeout=300, workdir="/var/tmp", log=None):
     """Run jobs in forked worker processes; returns results in job order.  A worker that dies (sanitizer report,
     assertion, signal) or makes no progress for job_timeout seconds is charged to the job it was running (reported as
     a crash result) and replaced, so one crashing configuration cannot hide the others or hang the check."""
@@ -213,7 +213,11 @@ def run_all(jobs, procs=4, job_timeout=300, workdir="/var/tmp"):
         workers[w] = dict(proc=p, conn=pr, share=share, cur=None, t=time.time(), err=errpath)
     for w in range(procs):
         spawn(w, shares[w])
+    tlog = time.time()
     while workers:
+        if log and time.time() - tlog > 120:
+            tlog = time.time()
+            log("cases: %d/%d done" % (sum(1 for r in results if r is not None), len(jobs)))
         conns = {st["conn"]: w for w, st in workers.items()}
         ready = mp.connection.wait(list(conns), timeout=2.0)
         for c in ready:
